@@ -455,7 +455,15 @@ TM["scatter_"] = lambda t, dim, index, src=None, value=None: ops.scatter(t, dim,
 TM["scatter_add"] = lambda t, dim, index, src: ops.scatter(t, dim, index, src, mode="add")
 TF["scatter_add"] = TM["scatter_add"]
 TM["scatter_add_"] = lambda t, dim, index, src: ops.scatter(t, dim, index, src, mode="add", inplace=True)
-TM["roll"] = lambda t, shifts, dims: ops.roll(t, shifts, dims)
+def _roll(t, shifts, dims=None):
+    """torch.roll; without dims the tensor is flattened, rolled and restored to its shape (documented behaviour)."""
+    if dims is None:
+        flat = ops.reshape(t, -1)
+        return ops.reshape(ops.roll(flat, shifts, 0), *t.shape)
+    return ops.roll(t, shifts, dims)
+
+
+TM["roll"] = _roll
 
 
 # ---- torch functions
@@ -534,7 +542,7 @@ def _tensor(data, dtype=None, **kw):
 TF["cat"] = lambda tensors, dim=0, **kw: ops.cat(list(tensors), kw.get("axis", dim))
 TF["concat"] = TF["cat"]
 TF["stack"] = lambda tensors, dim=0: ops.stack(list(tensors), dim)
-TF["roll"] = lambda t, shifts, dims: ops.roll(t, shifts, dims)
+TF["roll"] = _roll
 TF["where"] = lambda c, a, b: ops.where(c, a, b)
 # torch.lerp(start, end, weight) = start + weight * (end - start)   (documented definition; reals, A1)
 TF["lerp"] = lambda a, b, w: ops.binop("add", a, ops.binop("mul", w, ops.binop("sub", b, a)))
